@@ -828,7 +828,18 @@ func init() {
 	suites["C01"] = func(rng *rand.Rand, tier string, w *Writer) { h01(rng, tier, w); g01(rng, tier, w) }
 	// C02: every frame a gateway reports must be storable - frames of one device in one datagram get different receive times
 	h02, g02 := suites["C02"], suites["gwC02"]
-	suites["C02"] = func(rng *rand.Rand, tier string, w *Writer) { h02(rng, tier, w); g02(rng, tier, w) }
+	// ... and the last step, from the router to the application's stream (stream.go)
+	suites["C02"] = func(rng *rand.Rand, tier string, w *Writer) {
+		h02(rng, tier, w)
+		g02(rng, tier, w)
+		n := 20
+		if tier == "thorough" {
+			n = 300
+		}
+		for i := 0; i < n; i++ {
+			streamCase(rng, w)
+		}
+	}
 	// C17: the gateway side (gw.go) and, for the delay clause, the pipeline handing a join-accept to whichever handler reads the buffer
 	gw17 := suites["C17"]
 	ss17 := schedSuite("schedC17", schedKinds["C17"], 9, 200)
